@@ -25,7 +25,8 @@ RULE = ('Hypothesis-generated packets (type 0..6 - binary types reached by '
         'Non-trivial: >=2 header fields besides the type (attachments, '
         'non-default namespace, id), or a bytes leaf below depth 1, or a '
         'top-level scalar payload adjacent to the header. Distinct = distinct '
-        'canonical JSON of the case.')
+        'canonical JSON of the case.'
+        ' Two packets decoded from the same frames are also reassembled alternately, behind a third one given up half-way.')
 ASSUMPTIONS = [
     'bare top-level numeric payloads that start with a digit (only '
     'possible for CONNECT/DISCONNECT/CONNECT_ERROR) are inherently ambiguous '
